@@ -23,6 +23,10 @@ impl IoSender {
 
 impl io::Write for IoSender {
     fn write(&mut self, buf: &[u8]) -> io::Result<usize> {
+        if buf.is_empty() {
+            // an empty chunk would be read as a zero-length message, i.e. as a flush nobody issued
+            return Ok(0);
+        }
         self.sender.send(Message::Bytes(Vec::from(buf))).map_err(|err| io::Error::new(io::ErrorKind::NotConnected, err))?;
         Ok(buf.len())
     }
